@@ -10,6 +10,7 @@ T10 as_concrete_type looks every name a type mentions up (struct / enum names, c
 T13 struct literals / patterns: a duplicated field is reported and the search for missing fields lies on every accepting path
 T14 exhaustiveness: the sub-patterns of a struct pattern are aligned with the definition's fields by name (fields behind `..` are wildcards)
 T15 number / range patterns are compared with min() / max() of the matched number type on every accepting path
+T16 type definitions: duplicated struct fields are rejected; self-containing struct / enum definitions are rejected before any function body is checked
 T12 a block takes the type of its last statement only (assigned on the `index == len - 1` edge, or afresh for every statement)
 T11 max / min / + / - const expressions are only accepted for consts whose declared type is examined (numeric)
 T9  const expressions are checked against the consts defined before them (a local map filled in source order), never against the
@@ -1106,5 +1107,98 @@ def rule_t15(ctx):
     return res
 
 
+def prog_tc(ctx):
+    fs = [f for f in ctx.find_fns("type_check", None, "check.rs") if "Program<()>" in f["id"]]
+    if len(fs) != 1:
+        raise AnchorMissing("T16: type_check of the untyped program not found")
+    return fs[0]
+
+
+def rule_t16(ctx):
+    """Type definitions: a struct definition names each field once (the layout is per name, the size per entry), and no struct / enum
+    contains itself (sizes and the exhaustiveness check recurse over the definitions: such a program must be rejected before any
+    function body is checked, `never loops forever` / `never crashes`)."""
+    res = RuleResult("T16", "type definitions: duplicated struct fields and self-containing types are rejected before function bodies are checked")
+    f = prog_tc(ctx)
+    body = ctx.body(f["id"])
+
+    def builds(variant):
+        return {b for b, blk in enumerate(body.blocks) if not blk["cleanup"] for st in blk["stmts"]
+                if st["k"] == "assign" and st["rv"]["k"] == "aggregate" and st["rv"].get("adt") == "check::TypeErrorEnum" and st["rv"].get("variant") == variant}
+    fn_checks = [b for b, t in body.calls() if (mir.callee(t) or "").endswith("FnDef<()>>::type_check") and not body.blocks[b]["cleanup"]]
+    if not fn_checks:
+        raise AnchorMissing("T16: the program checker does not call the function checker")
+    # (a) duplicated field names of a struct definition
+    dup = builds("DuplicateStructField")
+    inserts = [b for b, t in body.calls() if mir.last_seg(mir.callee(t) or "") == "insert" and "StructDef" in "".join(t["func"].get("substs") or []) + str(t["func"].get("fty"))]
+    if not dup:
+        res.bad(Finding("T16", f["id"], "struct definition: a field declared twice is not rejected",
+                        "no DuplicateStructField error is constructed for definitions: `struct S { a: u8, a: bool }` is accepted, `x.a` is typed bool but yields 8 wires", f["sp"]))
+    else:
+        # the comparison of names that leads there involves the fields of the definition being checked
+        lp = [l for l in body.loops() if l["body"] & dup]
+        if not lp:
+            res.bad(Finding("T16", f["id"], "struct definition: duplicate test outside the loop over the fields", "the duplicate error is not raised per field", f["sp"]))
+        else:
+            res.ok({"clause": "duplicated struct fields", "verdict": "DuplicateStructField raised inside the loop over the definition's fields"})
+    # (b) self-containing types: error built, and the function checker is only reached when none was found
+    rec = builds("RecursiveTypeDef")
+    if not rec:
+        res.bad(Finding("T16", f["id"], "recursive type definitions are not rejected",
+                        "no RecursiveTypeDef error is constructed: `struct S { a: S }` passes the checker and the size computation / exhaustiveness check recurse until the stack overflows", f["sp"]))
+        return res
+    # the test is a call of a recursive helper over the definitions
+    helpers = set()
+    for b, t in body.calls():
+        cal = mir.callee(t) or ""
+        if ctx.has_fn(cal) and cal in ctx.cg.reach_set({cal}) and any(cal == (mir.callee(tt) or "") for _, tt in ctx.body(cal).calls()):
+            helpers.add(b)
+    # every path from the detection loop to the function checker passes the `found some` test whose true edge returns
+    guards = set()
+    for b in range(body.n):
+        t = body.term(b)
+        if t and t["k"] == "switch" and t["discr"]["k"] in ("copy", "move"):
+            for (r, p) in body.trace(t["discr"]["place"], through={}):
+                if r[0] == "call" and mir.last_seg(str(r[2])) == "is_empty":
+                    c = body.term(r[1])
+                    if c["args"] and c["args"][0]["k"] in ("copy", "move"):
+                        # the vector tested is the one the RecursiveTypeDef errors are pushed into
+                        vec_roots = {rr for (rr, pp) in body.trace(c["args"][0]["place"])}
+                        for pb, pt in body.calls():
+                            if mir.last_seg(mir.callee(pt) or "") == "push" and {rr for (rr, pp) in body.trace(pt["args"][0]["place"])} == vec_roots and \
+                                    any(rr[0] == "agg" for (rr, pp) in body.deep_sources(pt["args"][1], depth=3)) and any(body.dominates(x, pb) or x == pb for x in rec):
+                                guards.add(b)
+    if not helpers:
+        res.bad(Finding("T16", f["id"], "recursive type definitions: no traversal of the definitions", "the RecursiveTypeDef error does not depend on a recursive walk over the field types", f["sp"]))
+    elif not guards:
+        res.bad(Finding("T16", f["id"], "recursive type definitions do not stop the checker",
+                        "the RecursiveTypeDef errors are collected, but no test of that collection lies before the function bodies are checked: the exhaustiveness check recurses forever", f["sp"]))
+    else:
+        ok = True
+        for g in guards:
+            t = body.term(g)
+            # is_empty() == true edge (`otherwise` of `switch [0 -> ..]`, or the 0 target under negation) must be the only way on
+        w = body.path(0, fn_checks, blocked=guards)
+        if w:
+            res.bad(Finding("T16", f["id"], "function bodies can be checked without the recursion test",
+                            "a path reaches the function checker without passing the test for self-containing types", body.term(w[-1])["sp"]))
+        else:
+            # and on the edge on which errors were found the checker returns
+            bad = None
+            for g in guards:
+                t = body.term(g)
+                neg = any(r[0] == "rv" and r[1] == "unop" for (r, p) in body.trace(t["discr"]["place"], through={}))
+                found_edges = ([t["otherwise"]] if neg else [x for v, x in t["targets"] if v == 0])
+                for x in found_edges:
+                    if body.path(x, fn_checks):
+                        bad = g
+            if bad is not None:
+                res.bad(Finding("T16", f["id"], "recursive type definitions do not stop the checker",
+                                "after self-containing types were found the function bodies are still checked", body.term(bad)["sp"]))
+            else:
+                res.ok({"clause": "self-containing types", "verdict": "recursive walk over the definitions; with a finding the checker returns before any function body is checked"})
+    return res
+
+
 def run(ctx):
-    return ctx.run_rules([rule_t1, rule_t2, rule_t3, rule_t4, rule_t5, rule_t6, rule_t7, rule_t8, rule_t9, rule_t10, rule_t11, rule_t12, rule_t13, rule_t14, rule_t15])
+    return ctx.run_rules([rule_t1, rule_t2, rule_t3, rule_t4, rule_t5, rule_t6, rule_t7, rule_t8, rule_t9, rule_t10, rule_t11, rule_t12, rule_t13, rule_t14, rule_t15, rule_t16])
